@@ -833,6 +833,33 @@ fn gen(args: &Args, emit: &mut dyn FnMut(String)) {
     for _ in 0..per(80, 600) {
         emit(gen_i(&mut rng, true, None));
     }
+    // the same with probe packets and time stamps (M lines): a session fed every 8 ms (time-out 20 ms) for
+    // longer than the time-out is still open at the cleanup, whatever its packets carry
+    for k in 0..per(12, 60) {
+        let ep = if k % 2 == 0 { "-.1.bb8" } else { "7.2.bb9" };
+        let kind = if k % 3 == 0 { "pK" } else { "pE" };
+        let tsi = 1 + k % 2;
+        let mut s = format!("M 0 14 L+ {}!{}!{:x}", kind, ep, tsi);
+        for _ in 0..(3 + k % 3) {
+            s.push_str(&format!(" Z8 {}!{}!{:x}", kind, ep, tsi));
+        }
+        s.push_str(&format!(" C pE!{}!{:x}", ep, tsi));
+        emit(s);
+    }
+    // a carousel that only repeats what the receiver already has keeps its session alive: after the whole
+    // session, duplicates every 6 ms (time-out 14 ms) for longer than the time-out, then a cleanup
+    for k in 0..per(12, 60) {
+        let ep = if k % 2 == 0 { "-.1.bb8" } else { "7.2.bb9" };
+        let mut s = format!("I 0 14 1 1 {}!{:x}!{:x}!1!{:x}", ep, 1 + k % 3, rng.below(1 << 20), rng.range(5, 40));
+        for _ in 0..14 {
+            s.push_str(" 0");
+        }
+        for _ in 0..(4 + k % 3) {
+            s.push_str(" Z6 0 0");
+        }
+        s.push_str(" C 0 0");
+        emit(s);
+    }
     // exhaustive interleavings of two short sessions: equal TSI on two endpoints, two TSIs on one endpoint
     if args.shard.0 == args.shard.1 - 1 {
         let k = if thorough { 6 } else { 5 };
